@@ -19,7 +19,7 @@
 
 #include <pthread.h>
 #include <sched.h>
-#include <stdatomic.h>
+#include <librfn/atomic.h> /* <stdatomic.h>, or librfn's own fallback macros when built with -D__STDC_NO_ATOMICS__ */
 
 #include <librfn/fibre.h>
 #include <librfn/messageq.h>
@@ -256,9 +256,9 @@ static int body_A(fibre_t *f)
 {
 	PT_BEGIN_FIBRE(f);
 	for (;;) {
-		seenA = atomic_load_explicit(&workA, memory_order_relaxed);
+		seenA = __atomic_load_n(&workA, __ATOMIC_RELAXED);
 		PT_YIELD();
-		seenA = atomic_load_explicit(&workA, memory_order_relaxed);
+		seenA = __atomic_load_n(&workA, __ATOMIC_RELAXED);
 		PT_WAIT();
 	}
 	PT_END();
@@ -267,7 +267,7 @@ static int body_B(fibre_t *f)
 {
 	PT_BEGIN_FIBRE(f);
 	for (;;) {
-		seenB = atomic_load_explicit(&workB, memory_order_relaxed);
+		seenB = __atomic_load_n(&workB, __ATOMIC_RELAXED);
 		PT_WAIT();
 	}
 	PT_END();
@@ -287,7 +287,7 @@ static void *fb_sender(void *a)
 		e->check = ~(e->sender * 65537u + e->seq);
 		(void)fibre_eventq_send(&evH, e);
 		if (k % 3 == 0) {
-			uint32_t v = atomic_fetch_add_explicit(&workA, 1, memory_order_relaxed) + 1;
+			uint32_t v = __atomic_fetch_add(&workA, 1, __ATOMIC_RELAXED) + 1;
 			if (fibre_run_atomic(&fibA)) {
 				if (v > accA[me])
 					accA[me] = v;
@@ -295,7 +295,7 @@ static void *fb_sender(void *a)
 				refused++;
 		}
 		if (k % 5 == 0) {
-			uint32_t v = atomic_fetch_add_explicit(&workB, 1, memory_order_relaxed) + 1;
+			uint32_t v = __atomic_fetch_add(&workB, 1, __ATOMIC_RELAXED) + 1;
 			if (fibre_run_atomic(&fibB)) {
 				if (v > accB[me])
 					accB[me] = v;
